@@ -472,13 +472,12 @@ class Parser:
         first_var: Expression = self._parse_var(in_statement=True)
         if self.current_token.type in (TokenType.COMMA, TokenType.ASSIGN):
             return self._parse_assignment(first_token, first_var)
+        # statements carry the comments of their first token
         if isinstance(first_var, ExpFunctionCall):
-            return FunctionCall(
-                first_var.token, first_var.function, first_var.arguments
-            )
+            return FunctionCall(first_token, first_var.function, first_var.arguments)
         if isinstance(first_var, ExpMethodInvocation):
             return MethodInvocation(
-                first_var.token,
+                first_token,
                 first_var.function,
                 first_var.method,
                 first_var.arguments,
